@@ -575,13 +575,14 @@ pub unsafe fn rec_clone(src: *const u8, dst: *mut u8, count: usize) {
     // user code (the element's Clone) runs now, before anything is written: the panic-view
     // invariant must hold in the state the call-out finds
     callout_invariant();
-    let d = off(dst as *const u8);
+    // zero-sized clones write nothing: their target pointer carries no address to check
+    let d = if bytes == 0 { None } else { off(dst as *const u8) };
     if let Some(d) = d {
         kani::assert(in_current_region(d, bytes), "C05: clones are written inside the current target storage");
         kani::assert(bytes == 0 || s + bytes <= d || d + bytes <= s, "clone target does not overlap its source");
         tokens_kill(d, bytes);
         written(d, bytes);
-    } else if gh.ext_dst_on {
+    } else if gh.ext_dst_on && bytes != 0 {
         kani::assert(dst as *const u8 == gh.ext_dst, "the clone goes to the requested buffer");
     }
     let mut t = 0;
